@@ -28,6 +28,7 @@ import (
 	"testing/synctest"
 	"time"
 
+	bswl "github.com/ipfs/boxo/bitswap/client/wantlist"
 	bsmsg "github.com/ipfs/boxo/bitswap/message"
 	pb "github.com/ipfs/boxo/bitswap/message/pb"
 	bsnet "github.com/ipfs/boxo/bitswap/network"
@@ -78,6 +79,39 @@ func c35Age(prio int32, cancel bool) int {
 		return 0
 	}
 	return int(int64(math.MaxInt32) - int64(prio) + 1)
+}
+
+// the queue's tracking lists (locked state of the spec), types only: one row <<c, ps, bs, pp, bp, cancel>> per
+// CID that is on any of them.  Caller holds wllock.
+func (h *c35H) stLocked() [][]int {
+	mq := h.mq
+	ty := func(w *bswl.Wantlist, k cid.Cid) int {
+		if e, ok := w.Get(k); ok {
+			return c35Type(e.WantType)
+		}
+		return 0
+	}
+	st := [][]int{}
+	for n := 1; n <= c35NCids; n++ {
+		k := c35Cids[n]
+		row := []int{n, ty(mq.peerWants.sent, k), ty(mq.bcstWants.sent, k), ty(mq.peerWants.pending, k),
+			ty(mq.bcstWants.pending, k), 0}
+		if mq.cancels.Has(k) {
+			row[5] = 1
+		}
+		if row[1]+row[2]+row[3]+row[4]+row[5] > 0 {
+			st = append(st, row)
+		}
+	}
+	return st
+}
+
+// emitSt logs an event together with the tracking lists, atomically with respect to the producers' sections.
+func (h *c35H) emitSt(ev M) {
+	h.mq.wllock.Lock()
+	ev["st"] = h.stLocked()
+	vEmit(ev)
+	h.mq.wllock.Unlock()
 }
 
 // message size limits that cut after exactly n new entries (entry sizes are 40..48 bytes for these CIDs)
@@ -138,7 +172,7 @@ func (s *c35Sender) SendMsg(ctx context.Context, m bsmsg.BitSwapMessage) error {
 	if len(m.Blocks()) != 0 || len(m.BlockPresences()) != 0 || m.Full() {
 		vEmit(M{"ev": "Bad", "what": "want message carries blocks/presences/full"})
 	}
-	vEmit(M{"ev": "Send", "entries": es})
+	s.h.emitSt(M{"ev": "Send", "entries": es})
 	return nil
 }
 func (s *c35Sender) Reset() error       { return nil }
@@ -267,10 +301,29 @@ func c35Directed(t *testing.T, sc c35Sched) {
 			}
 			poll()
 		}
+		// drain: let the loop run until the bubble is quiescent and nothing is signalled
+		drain := func() {
+			for i := 0; ; i++ {
+				if cur == nil && len(h.mq.outgoingWork) == 0 {
+					time.Sleep(25 * time.Millisecond)
+					poll()
+					if cur == nil && len(h.mq.outgoingWork) == 0 {
+						break
+					}
+				}
+				loopStep()
+				if i > 2000 {
+					panic("c35: queue does not become idle")
+				}
+			}
+			h.emitSt(M{"ev": "Idle"})
+		}
 		for _, o := range sc.Steps {
 			switch o.Op {
 			case "L":
 				loopStep()
+			case "I":
+				drain()
 			case "rb":
 				if cur != nil {
 					continue // RebroadcastNow needs the loop in its select
@@ -284,21 +337,7 @@ func c35Directed(t *testing.T, sc c35Sched) {
 				poll()
 			}
 		}
-		// drain to quiescence
-		for i := 0; ; i++ {
-			if cur == nil && len(h.mq.outgoingWork) == 0 {
-				time.Sleep(25 * time.Millisecond)
-				poll()
-				if cur == nil && len(h.mq.outgoingWork) == 0 {
-					break
-				}
-			}
-			loopStep()
-			if i > 2000 {
-				panic("c35: queue does not become idle")
-			}
-		}
-		vEmit(M{"ev": "Idle"})
+		drain()
 		if time.Since(start) > 14*time.Second {
 			panic("c35: run crossed the periodic rebroadcast timer; shorten the schedule")
 		}
@@ -349,9 +388,15 @@ func c35Concurrent(t *testing.T, seed int64, sh bool, maxN int, nprod, nops, nci
 			go func(p int) {
 				defer wg.Done()
 				rng := rand.New(rand.NewSource(seed*31 + int64(p)))
+				// half of the calls are about the run's hot CID, so that requests of different kinds (want-block,
+				// want-have, broadcast, cancel) from different producers keep meeting on one CID
+				hot := 1 + int(seed%int64(ncids))
 				pick := func(max int) []int {
 					n := 1 + rng.Intn(max)
 					set := map[int]bool{}
+					if rng.Intn(2) == 0 {
+						set[hot] = true
+					}
 					for len(set) < n {
 						set[1+rng.Intn(ncids)] = true
 					}
@@ -409,7 +454,7 @@ func c35Concurrent(t *testing.T, seed int64, sh bool, maxN int, nprod, nops, nci
 				panic("c35: queue does not become idle")
 			}
 		}
-		vEmit(M{"ev": "Idle"})
+		h.emitSt(M{"ev": "Idle"})
 		if time.Since(start) > 14*time.Second {
 			panic("c35: run crossed the periodic rebroadcast timer")
 		}
@@ -422,8 +467,9 @@ func c35Concurrent(t *testing.T, seed int64, sh bool, maxN int, nprod, nops, nci
 func c35Record(t *testing.T) {
 	rng := vRand()
 	runs := vEnvInt("C35_RUNS", 12)
+	par := rng.Intn(2)
 	for r := 0; r < runs; r++ {
-		sh := rng.Intn(3) > 0
+		sh := (r+par)%2 == 0 // both settings of HAVE support, half of the runs each
 		maxN := []int{1, 2, 3, 0}[rng.Intn(4)]
 		c35Concurrent(t, vSeed()*1000+int64(r), sh, maxN, 2+rng.Intn(2), vEnvInt("C35_OPS", 6), vEnvInt("C35_CIDS", 4))
 	}
